@@ -44,6 +44,7 @@ def actOfJson (j : Json) : Except String Act := do
 /-- ops:
 * `emit`   `{old,new,aliases,oldAliases,opts}` → `{cmds:[..], text}` | `{unmodelled:true}`
 * `sheval` `{env,text}` → `{env}` | `{none:true}`
+* `shevalf` `{env,funcs,text}` → `{env,funcs,out,status}` | `{none:true}` (functions, echo, double quotes, status)
 * `acts`   `{base,acts,pinned}` → `{old,cur}` -/
 def handle : Handler := fun j => do
   let op ← (← j.getObjVal? "op").getStr?
@@ -63,6 +64,13 @@ def handle : Handler := fun j => do
     match shEval env (← jstr j "text") with
     | none => pure (Json.mkObj [("none", true)])
     | some e => pure (Json.mkObj [("env", envToJson e)])
+  | "shevalf" =>
+    let env ← envOfJson (← j.getObjVal? "env")
+    let fs ← envOfJson (← j.getObjVal? "funcs")
+    match shEvalF env fs (← jstr j "text") with
+    | none => pure (Json.mkObj [("none", true)])
+    | some r => pure (Json.mkObj [("env", envToJson r.sh.env), ("funcs", envToJson r.funcs), ("out", ofStrs r.out),
+                                  ("status", Json.num (JsonNumber.fromNat r.status))])
   | "acts" =>
     let base ← envOfJson (← j.getObjVal? "base")
     let acts ← (← jarr j "acts").mapM actOfJson
